@@ -108,6 +108,7 @@ fn main() {
         "C14" => cmd::run(&o),
         "C05" => asm::run(&o),
         "C19" => asm::run_seq(&o),
+        "C19W" => cli::run_c19w(&o),
         "C01" | "C04" => enc::run(&o),
         "C18" => flag::run(&o),
         other => {
